@@ -77,10 +77,6 @@ impl Doc {
         }
     }
 
-    pub fn is_container(&self) -> bool {
-        matches!(self, Doc::Arr(_) | Doc::Obj(_))
-    }
-
     fn child_count(&self) -> usize {
         match self {
             Doc::Arr(a) => a.len(),
@@ -365,10 +361,21 @@ pub fn walk_path(rng: &mut Rng, doc: &Doc, stop_pct: u64) -> Vec<String> {
     let mut cur = doc;
     loop {
         let n = cur.child_count();
-        if n == 0 || rng.pct(stop_pct) {
+        // the root itself is a boring target: a quarter of the usual stop chance there
+        let stop = if toks.is_empty() { stop_pct / 4 } else { stop_pct };
+        if n == 0 || rng.pct(stop) {
             return toks;
         }
-        let i = rng.range(0, n - 1);
+        let mut i = rng.range(0, n - 1);
+        // prefer going deeper: one re-draw when the child is a leaf
+        let leaf = |i: usize| match cur {
+            Doc::Arr(a) => a[i].child_count() == 0,
+            Doc::Obj(o) => o[i].1.child_count() == 0,
+            _ => true,
+        };
+        if n > 1 && leaf(i) && rng.pct(60) {
+            i = rng.range(0, n - 1);
+        }
         match cur {
             Doc::Arr(a) => {
                 toks.push(i.to_string());
@@ -476,6 +483,16 @@ fn expand_token(rng: &mut Rng) -> String {
 
 /// Pointer ending at an array boundary: path of an array + len / len+1 / `-` / len-1 / 0 (C08, C06).
 pub fn array_end_path(rng: &mut Rng, doc: &Doc) -> Option<Vec<String>> {
+    array_path(rng, doc, false)
+}
+
+/// Pointer whose token at an existing array is one `assign` must refuse (index > len, malformed
+/// index), optionally followed by more tokens (C15).
+pub fn array_fail_path(rng: &mut Rng, doc: &Doc) -> Option<Vec<String>> {
+    array_path(rng, doc, true)
+}
+
+fn array_path(rng: &mut Rng, doc: &Doc, failing: bool) -> Option<Vec<String>> {
     // collect paths of arrays by repeated random descent (cheap, documents are small)
     for _ in 0..6 {
         let mut toks = Vec::new();
@@ -506,6 +523,23 @@ pub fn array_end_path(rng: &mut Rng, doc: &Doc) -> Option<Vec<String>> {
         }
         if let Some((plen, alen)) = found {
             toks.truncate(plen);
+            if failing {
+                let last = match rng.below(100) {
+                    0..=29 => (alen + 1).to_string(),
+                    30..=41 => (alen + rng.range(2, 40)).to_string(),
+                    _ => (*rng.pick(BAD_INDEX)).to_string(),
+                };
+                toks.push(last);
+                let extra = match rng.below(10) {
+                    0..=4 => 0,
+                    5..=7 => 1,
+                    _ => 2,
+                };
+                for _ in 0..extra {
+                    toks.push(expand_token(rng));
+                }
+                return Some(toks);
+            }
             let last = match rng.below(100) {
                 0..=29 => alen.to_string(),
                 30..=49 => (alen + 1).to_string(),
@@ -524,7 +558,7 @@ pub fn array_end_path(rng: &mut Rng, doc: &Doc) -> Option<Vec<String>> {
 /// 40 % path-directed, 40 % perturbed, 20 % free (DESIGN §4).
 pub fn ptr_for_doc(rng: &mut Rng, doc: &Doc) -> Vec<String> {
     match rng.below(100) {
-        0..=39 => walk_path(rng, doc, 22),
+        0..=39 => walk_path(rng, doc, 16),
         40..=79 => perturbed_path(rng, doc, 0),
         _ => free_path(rng),
     }
